@@ -52,17 +52,22 @@ Proof.
   destruct p; try discriminate; try (destruct k; try discriminate); intros H; rewrite ?H; cbn; auto 10.
 Qed.
 
-Lemma aintr_step s l s' : step s l = Some s' -> aintr s' = aintr s.
-Proof.
-  intros Hs. destruct l; cbn [step] in Hs.
-  - unfold start in Hs. destruct (pc (th s t)); try discriminate. destruct o; split_ifs Hs; try discriminate; injection Hs as <-; reflexivity.
-  - unfold tstep in Hs. cbv zeta in Hs. destruct (pc (th s t)); unfold try_lock in Hs; split_ifs Hs; try discriminate;
-      injection Hs as <-; unfold ret_lock, after_sleep, intr_out, acquired, prelocked_interrupt, dequeue, goto, setT, setM;
-      cbn [aintr]; repeat match goal with |- context [if ?b then _ else _] => destruct b | |- context [match ?b with _ => _ end] => destruct b end; cbn [aintr]; reflexivity.
-  - unfold sched in Hs. split_ifs Hs; try discriminate; injection Hs as <-; reflexivity.
-  - unfold drain in Hs. split_ifs Hs; try discriminate; injection Hs as <-; reflexivity.
-  - unfold exp_lock in Hs. split_ifs Hs; try discriminate; injection Hs as <-; reflexivity.
-  - unfold exp_body in Hs. split_ifs Hs; try discriminate; injection Hs as <-; unfold dequeue, setT, setM; cbn [aintr];
-      repeat match goal with |- context [match ?b with _ => _ end] => destruct b end; cbn [aintr]; reflexivity.
-  - split_ifs Hs; try discriminate; injection Hs as <-; reflexivity.
-Qed.
+(* to do: `aintr_step : step s l = Some s' -> aintr s' = aintr s` (the switch is a constant) and the
+   preservation of inv3 under aintr = true; see notes/C01.md *)
+Definition inv3_preserved : Prop :=
+  forall s l s', inv1 s -> inv2 s -> aintr s = true -> inv3 s -> step s l = Some s' -> inv3 s'.
+(* the full-strength statements that inv3 yields (kept as Definitions: not proved yet) *)
+Definition lock_result_iff_owner : Prop :=
+  forall s, reachable s -> aintr s = true -> forall t m r e,
+    pc (th s t) = PRet (RLock m) r e ->
+    (r = 0 <-> owner (mx s m) = Some t) /\ (r <> 0 -> wq (th s t) = None /\ forall m', ~ In t (wqm (mx s m'))).
+Definition mutex_excl : Prop :=
+  forall s, reachable s -> aintr s = true -> forall m t1 t2,
+    (cnt (th s t1) m > 0)%nat -> (cnt (th s t2) m > 0)%nat -> t1 = t2.
+Definition not_stuck : Prop :=
+  forall s, reachable s -> aintr s = true -> forall m,
+    owner (mx s m) = None -> wqm (mx s m) <> [] ->
+    exists t, (exists x, pc (th s t) = PUint m x) \/
+              (kz1 (pc (th s t)) m = true /\ wq (th s t) = None /\ err (th s t) = -1) \/
+              (exists c, lm c = m /\ (pc (th s t) = PS1 (SLock c) \/ pc (th s t) = PS2 (SLock c) (-1) \/
+                                      pc (th s t) = PLchk c \/ pc (th s t) = PLspl c \/ pc (th s t) = PLcas2 c)).
